@@ -615,9 +615,6 @@ class ServerTls(Server):
             if cx.aborted:  # handshake completed unsuccessfully
                 del self.cxes[ca] # remove and let client startover
                 continue
-            if cx.tymeout > 0.0 and cx.tymth and cx.tymer.expired:  # only if wound
-                cx.close()  # handshake still pending after tymeout so give up
-                del self.cxes[ca]
 
 
 
@@ -992,6 +989,8 @@ class RemoterTls(Remoter):
             raise  # unexpected Exception so bubble up
 
         self.connected = True  # handshake completed successfully
+        if self.refreshable:  # idle tyme is measured from end of handshake
+            self.refresh()
 
 
     def receive(self):
